@@ -264,6 +264,11 @@ func (t *Tree) buildNode(i int, spec BlockSpec, parent *TNode) *TNode {
 		node.Err = fmt.Errorf("ancestor invalid: %v", parent.Err)
 		return node
 	}
+	if b.Timestamp.After(time.Date(2090, time.January, 1, 0, 0, 0, 0, time.UTC)) {
+		node.Err = fmt.Errorf("timestamp too far in the future")
+		node.OwnInvalid = true
+		return node
+	}
 	var order []types.FileContractID
 	if spec.Reorder && corrupt == nil && parent.Ledger.HasSupplement() {
 		if ids := parent.Ledger.Expiring[node.Height]; len(ids) >= 2 {
@@ -353,6 +358,11 @@ func applyCorruption(cs consensus.State, b *types.Block, c Corruption, genesisTS
 		Grind(cs, b, false)
 	case "timestamp-past":
 		b.Timestamp = genesisTS.Add(-time.Hour)
+		Recommit(cs, b)
+	case "timestamp-future":
+		// far beyond any clock: the manager refuses it as a future block (a
+		// rule of the node, not of core's validation)
+		b.Timestamp = time.Date(2100, time.January, 1, 0, 0, mod(c.Arg, 60), 0, time.UTC)
 		Recommit(cs, b)
 	case "payout":
 		b.MinerPayouts[0].Value = b.MinerPayouts[0].Value.Add(types.NewCurrency64(1 + uint64(mod(c.Arg, 3))))
@@ -475,16 +485,17 @@ func applyCorruption(cs consensus.State, b *types.Block, c Corruption, genesisTS
 
 // TreeGenConfig bounds the tree generator.
 type TreeGenConfig struct {
-	MaxBlocks    int
-	MaxTxs       int
-	CorruptPct   int // percentage of blocks that get a corruption
-	Kinds        []string
-	MaxAllow     int
-	ForkPct      int
-	SharedPct    int // percentage of cases using shared windows
-	BadIntentPct int
-	MalleatePct  int // percentage of blocks that get a same-id altered-body copy
-	ReorderPct   int // shared-window cases: percentage of blocks applied with a reversed expiration order (option WithExpiringContractOrder)
+	MaxBlocks        int
+	MaxTxs           int
+	CorruptPct       int // percentage of blocks that get a corruption
+	Kinds            []string
+	MaxAllow         int
+	ForkPct          int
+	SharedPct        int // percentage of cases using shared windows
+	BadIntentPct     int
+	MalleatePct      int      // percentage of blocks that get a same-id altered-body copy
+	ExtraCorruptions []string // further corruption kinds to draw from (e.g. "timestamp-future")
+	ReorderPct       int      // shared-window cases: percentage of blocks applied with a reversed expiration order (option WithExpiringContractOrder)
 }
 
 // DefaultTreeGen returns the generator bounds of the current tier.
@@ -590,7 +601,7 @@ func GenTree(t *rapid.T, cfg TreeGenConfig) TreeCase {
 			bs.Malleate = 1 + Uniform(t, 4, "malleate")
 		}
 		if Chance(t, cfg.CorruptPct, "corruptroll") {
-			bs.Corrupt = &Corruption{Kind: PickString(t, CorruptionKinds, "ckind"), Arg: rapid.IntRange(0, 15).Draw(t, "carg")}
+			bs.Corrupt = &Corruption{Kind: PickString(t, append(append([]string(nil), CorruptionKinds...), cfg.ExtraCorruptions...), "ckind"), Arg: rapid.IntRange(0, 15).Draw(t, "carg")}
 		}
 		tc.Blocks = append(tc.Blocks, bs)
 	}
